@@ -202,4 +202,105 @@ def add_obligations(pack, ss, tier, pid='C02'):
     pack.trust('generated functions are called with the argument list built by refresh_inputs_arg (star-call)',
                'Model.get_md5 hashes the declared strings of the model (not decided: that it covers every string the generator '
                'depends on)')
-    run_contracts(pack, [(fg_update(pid, 'f'),), (fg_update(pid, 'g'),), (refresh_inputs_arg(pid),), (find_stale(pid),), (undill(pid),)])
+    run_contracts(pack, [(fg_update(pid, 'f'),), (fg_update(pid, 'g'),), (refresh_inputs_arg(pid),), (find_stale(pid),), (undill(pid),), (generate_pycode_tail(pid),)])
+
+
+FSP = 'andes/core/symprocessor.py'
+
+
+def generate_pycode_tail(pid):
+    """SymProcessor.generate_pycode, from ``out_str = ...`` on: an existing file is left alone only when its complete text equals
+    the freshly generated text; in every other case the fresh text is written to <pycode_path>/<class_name>.py."""
+    S = TStr.sort
+    FILE = z3.DeclareSort('FileHandle')
+    OUT, DISK, PATH = fresh('generated_text', S), fresh('text_on_disk', S), fresh('file_path', S)
+
+    def join(ex, st, args, kw, node):
+        base, arg = args
+        if base == '\n':
+            ok = arg is st.env['out']
+            st.ghost['joined_out'] = bool(ok)
+            return Opaque(OUT)
+        if base == '' and arg == ('lines', 'r'):     # all lines of the file opened for reading
+            return Opaque(DISK)
+        return Opaque(fresh('joined', S))
+
+    def open_(ex, st, args, kw, node):
+        mode = args[1] if len(args) > 1 else 'r'
+        ok = isinstance(args[0], Opaque) and args[0].term.eq(PATH)
+        st.ghost['opened'] = st.ghost['opened'] + [(mode, bool(ok))]
+        h = Opaque(fresh('file_' + mode, FILE))
+        st.ghost['handles'] = dict(st.ghost['handles'], **{str(h.term): mode})
+        return h
+
+    def mode_of(st, h):
+        return st.ghost['handles'].get(str(h.term)) if isinstance(h, Opaque) else None
+
+    def write(ex, st, args, kw, node):
+        base, text = args
+        st.ghost['written'] = st.ghost['written'] + [bool(mode_of(st, base) == 'w' and isinstance(text, Opaque) and text.term.eq(OUT))]
+        return None
+
+    def isfile(ex, st, args, kw, node):
+        b = fresh('isfile', Bo)
+        st.ghost['isfile'] = b
+        return b
+
+    def post(old, new, res):
+        g = new.st.ghost
+        wrote = g['written'] == [True] and ('w', True) in g['opened']
+        if g['written'] == []:
+            return z3.And(g['isfile'], DISK == OUT, z3.BoolVal(g.get('joined_out') is True))
+        return z3.BoolVal(bool(wrote) and g.get('joined_out') is True)
+    c = Contract(FSP, 'SymProcessor.generate_pycode', pid=pid, params={'self': TObj(), 'pycode_path': TOpaque('P'), 'yapf_pycode': TBool()},
+                 schema={'self.class_name': TStr(), 'self.parent.class_name': TStr()},
+                 ghost_init={'opened': [], 'written': [], 'handles': {}},
+                 calls={'<value>.join': join, 'get_pycode_path': lambda ex, st, a, k, n: Opaque(fresh('dir', S)),
+                        'os.path.join': lambda ex, st, a, k, n: Opaque(PATH), 'os.path.isfile': isfile, 'open': open_,
+                        '<value>.readlines': lambda ex, st, a, k, n: ('lines', mode_of(st, a[0])),
+                        '<value>.write': write, 'logger.debug': lambda ex, st, a, k, n: None},
+                 globals_={'get_pycode_path': Func('get_pycode_path'), 'open': Func('open'), 'os': Module('os')},
+                 ensures=[('skip-writing-only-if-whole-file-equals-fresh-text;else-write-fresh-text', post)], modifies=[])
+    c.body_from = 'out_str = '
+    c.locals = {'out': TOpaque('LineList')}
+    c.merge = False
+    return c
+
+
+def bounded_overwrite(pack, ss, d, pid='C02'):
+    """bounded native stand-in: a generated file whose body was altered (md5 line kept) must be replaced by generate_pycode."""
+    import os
+    import re
+    from contracts.packutil import native_guard
+    name = '%s/bounded:generate_pycode-restores-a-tampered-file(same-md5-line)' % pid
+    tried = []
+
+    def go():
+        for mdl in ('TGOV1', 'Toggle', 'GENCLS'):
+            fp = os.path.join(d, mdl + '.py')
+            if not os.path.isfile(fp) or mdl not in ss.models:
+                continue
+            pristine = open(fp).read()
+            tampered = pristine.replace('return (', 'return (-', 1)
+            if tampered == pristine:
+                continue
+            try:
+                open(fp, 'w').write(tampered)
+                # full regeneration of this model (symbols -> functions -> file), as `andes prepare -m <model>` does;
+                # calling generate_pycode alone would re-read the function sources from the tampered file itself
+                ss.models[mdl].prepare(quick=True, pycode_path=d)
+                after = open(fp).read()
+            finally:
+                open(fp, 'w').write(pristine)
+            tried.append(mdl)
+            # compared as a set of top-level definitions: the order of the *_ia / *_ii helper functions depends on dict order
+            if sorted(x.strip() for x in after.split('\n\n\n')) != sorted(x.strip() for x in pristine.split('\n\n\n')):
+                return mdl
+        return None
+    bad = native_guard(pack, name, go)
+    pack.bounded.append({'function': 'SymProcessor.generate_pycode', 'bound': 'models %s, one tampered body each' % tried,
+                         'what': 'top-level definitions of the file after regeneration equal those of the fresh text'})
+    if bad:
+        pack.violation(name, {'bounded': True, 'model': bad, 'native_cmd': 'alter the first return of pycode/%s.py keeping the md5 line, call '
+                              'model.prepare(quick=True, pycode_path=dir); the altered file survives' % bad})
+    return tried
